@@ -264,6 +264,8 @@ pub fn leaves() -> Vec<Leaf> {
         leaf("delay_id", Stmt::Delay(id("d"), vec![opd_i("q", 0), opd_i("q", 1)])),
         leaf("delay_micro", Stmt::Delay(Expr::Timing(s("20"), false, "µs"), vec![opd("r")])),
         leaf("decl_duration_float", Stmt::Decl { konst: false, ty: Ty::plain("duration"), name: s("v30"), init: Some(Expr::Timing(s("2.5"), true, "µs")) }),
+        leaf("for_set_repeat", Stmt::For { ty: Ty::plain("int"), var: s("i9"), iter: ForIter::Set(vec![int(1), int(1), int(2)]), body: Body::block(vec![]) }),
+        leaf("for_set_ids", Stmt::For { ty: Ty::plain("int"), var: s("i8"), iter: ForIter::Set(vec![id("a"), id("a")]), body: Body::single(Stmt::Assign { target: Operand::Id(s("b")), op: None, value: int(7) }) }),
         leaf("break", Stmt::Break),
         leaf("continue", Stmt::Continue),
         leaf("end", Stmt::End),
@@ -473,6 +475,11 @@ pub fn unary_mix() -> Vec<Expr> {
         v.push(bin(o, Expr::Bool(true), Expr::Bits(s("\"01\""))));
     }
     // index forms
+    v.push(Expr::Index(Box::new(id("m")), Index::Set(vec![int(0), int(3), int(3)])));
+    v.push(Expr::Index(Box::new(id("m")), Index::Set(vec![int(1), int(1)])));
+    v.push(Expr::Index(Box::new(id("m")), Index::Set(vec![id("a"), id("a"), id("b")])));
+    v.push(Expr::Index(Box::new(id("m")), Index::List(vec![IndexItem::E(int(1)), IndexItem::E(int(1))])));
+    v.push(Expr::Call(s("f1"), vec![id("a"), id("a")]));
     v.push(Expr::Index(Box::new(id("m")), Index::List(vec![IndexItem::Range(int(0), None, int(2))])));
     v.push(Expr::Index(Box::new(id("m")), Index::List(vec![IndexItem::Range(int(0), Some(int(2)), int(3))])));
     v.push(Expr::Index(Box::new(id("m")), Index::Set(vec![int(0), int(2), int(3)])));
